@@ -1528,6 +1528,7 @@ impl Transaction {
         commit_handler: &dyn CommitHandler,
         base_path: &Path,
         version: u64,
+        current_manifest: &Manifest,
         config: &ManifestWriteConfig,
         tx_path: &str,
     ) -> Result<(Manifest, Vec<IndexMetadata>)> {
@@ -1537,6 +1538,11 @@ impl Transaction {
         let mut manifest = read_manifest(object_store, &location.path, location.size).await?;
         manifest.set_timestamp(timestamp_to_nanos(config.timestamp));
         manifest.transaction_file = Some(tx_path.to_string());
+        // Row ids and fragment ids handed out after the restored version stay used:
+        // versions between it and the restore can still be read (and restored) and
+        // must never share an id with rows written from now on.
+        manifest.next_row_id = manifest.next_row_id.max(current_manifest.next_row_id);
+        manifest.max_fragment_id = manifest.max_fragment_id.max(current_manifest.max_fragment_id);
         let indices = read_manifest_indexes(object_store, &location, &manifest).await?;
         Ok((manifest, indices))
     }
